@@ -632,6 +632,7 @@ func (cl *Client) produce(
 		// notified.
 		p.blocked.Add(1)
 		p.blockedBytes += userSize
+		vtrace("prod.block", r, p.bufferedRecords, int64(p.blocked.Load()), p.bufferedBytes)
 		p.mu.Unlock()
 
 		cl.cfg.logger.Log(LogLevelDebug, "blocking Produce because we are either over max buffered records or max buffered bytes",
@@ -657,6 +658,7 @@ func (cl *Client) produce(
 			}
 			p.blocked.Add(-1)
 			p.blockedBytes -= userSize
+			vtrace("prod.unblock", r, p.bufferedRecords, int64(p.blocked.Load()), p.bufferedBytes)
 		}()
 
 		drainBuffered := func(err error) {
@@ -708,6 +710,7 @@ func (cl *Client) produce(
 	}
 	p.bufferedRecords++
 	p.bufferedBytes += userSize
+	vtrace("prod.admit", r, p.bufferedRecords, int64(p.blocked.Load()), p.bufferedBytes)
 	p.mu.Unlock()
 
 	// Set at buffer time, before any produce reaches the broker, so this can
@@ -864,6 +867,7 @@ func (cl *Client) finishRecordPromise(pr promisedRec, err error, beforeBuffering
 	p.mu.Lock()
 	p.bufferedBytes -= userSize
 	p.bufferedRecords--
+	vtrace("prod.finish", pr.Record, p.bufferedRecords, int64(p.blocked.Load()), p.bufferedBytes)
 	broadcast = p.blocked.Load() > 0 || p.bufferedRecords == 0 && p.flushing.Load() > 0
 	p.mu.Unlock()
 
@@ -1430,6 +1434,7 @@ func (cl *Client) Flush(ctx context.Context) error {
 		defer close(done)
 
 		for !quit && p.bufferedRecords+int64(p.blocked.Load()) > 0 {
+			vtrace("prod.flushwait", nil, p.bufferedRecords, int64(p.blocked.Load()), 0)
 			p.c.Wait()
 		}
 	}()
